@@ -25,6 +25,7 @@
  */
 
 #include <stdlib.h>
+#include <limits.h>
 #include <stdint.h>
 #include <stdbool.h>
 #include <string.h>
@@ -137,6 +138,7 @@ bool index_read(zckCtx *zck, char *data, size_t size, size_t max_length) {
             return false;
         }
         new->length = chunk_length;
+
         new->zck = zck;
         new->valid = 0;
         new->number = count;
@@ -149,6 +151,16 @@ bool index_read(zckCtx *zck, char *data, size_t size, size_t max_length) {
         else
             zck->index.first = new;
         prev = new;
+    }
+    /* The index must hold exactly the chunks it claims to hold (at least the
+     * dict chunk), and they must end where the index ends */
+    if(length != size) {
+        set_fatal_error(zck, "Index entries don't match the index size");
+        return false;
+    }
+    if(count == 0 || (size_t)count != index_count) {
+        set_fatal_error(zck, "Index count doesn't match the number of chunks");
+        return false;
     }
     free(zck->index_string);
     zck->index_string = NULL;
